@@ -452,7 +452,12 @@ class CBMachine(object):
     def step(self, s):
         k = s[0]
         if k == "let":
-            self.assign(s[1], self.ev(s[2]))
+            # LET locates the target first (evaluating its subscripts), then evaluates the expression
+            if s[1][0] == "arr":
+                idx = [self.ev(a) for a in s[1][2]]
+                self.aset(s[1][1], idx, self.ev(s[2]))
+            else:
+                self.assign(s[1], self.ev(s[2]))
         elif k == "print":
             if s[2] is not None:
                 loc = self.ev(s[2])
